@@ -237,6 +237,32 @@ def h2_case(seed):
     return desc, fails
 
 
+def h1_close_pipelined_case(seed):
+    """A pipelined request parked behind one whose response ends the connection (Connection: close, HTTP/1.0): the server
+    closes after that response, and the parked reader is released so that the connection handler finishes."""
+    rng = random.Random(seed)
+    T = rng.choice([1.0, 5.0])
+    d = rng.choice([0.0, T / 2, T * 3])
+    why = rng.choice(["client-close", "http10", "max-requests", "max-requests"])
+    first = {"client-close": b"GET /r HTTP/1.1\r\nHost: x\r\nConnection: close\r\n\r\n", "http10": b"GET /r HTTP/1.0\r\nHost: x\r\n\r\n",
+             "max-requests": b"GET /r HTTP/1.1\r\nHost: x\r\n\r\n"}[why]
+    script = [("send", first + b"GET /s HTTP/1.1\r\nHost: x\r\n\r\n")]
+    fails = []
+    desc = {"seed": seed, "carrier": "h1", "note": "pipelined-behind-close:" + why, "T": T, "delay": d, "expected_close": d}
+    for backend, run in (("asyncio", W.run_asyncio), ("trio", W.run_trio)):
+        cfg = make_cfg(T)
+        if why == "max-requests":
+            cfg.keep_alive_max_requests = 1        # the server's own decision: the client could not know, the reader is parked
+        res = run(http_app([d, 0.0]), cfg, script, tail=d + T * 5 + 50)
+        ca = closed_at(res)
+        if ca is None or abs(ca - d) > 1e-6:
+            fails.append({"signature": "close-after-closing-response", "backend": backend, "closed_at": ca, "expected": d, "desc": desc})
+        if res["handler_done"] is None or res["leftovers"] or res["handler_error"]:
+            fails.append({"signature": "handler-not-finished", "backend": backend, "leftovers": res["leftovers"], "error": res["handler_error"],
+                          "desc": desc})
+    return desc, fails
+
+
 def big_body_app(size):
     async def app(scope, receive, send, sleep, records, now):
         rec = {"kind": "http", "start": now(), "path": scope["path"]}
@@ -354,7 +380,7 @@ def timer_case(res, T):
 
 def run(ctx):
     fns = [(h1_case, ctx.scale(120, 2000, 600)), (loss_case, ctx.scale(80, 1200, 400)), (ws_case, ctx.scale(24, 300, 100)),
-           (h2_case, ctx.scale(24, 300, 100)), (h2_blocked_eof_case, ctx.scale(8, 100, 30)), (terminate_case, ctx.scale(12, 100, 40))]
+           (h2_case, ctx.scale(24, 300, 100)), (h2_blocked_eof_case, ctx.scale(8, 100, 30)), (h1_close_pipelined_case, ctx.scale(8, 100, 30)), (terminate_case, ctx.scale(12, 100, 40))]
     oracle_failures, descs = [], []
     for fn, n in fns:
         for i in range(n):
